@@ -16,7 +16,9 @@ Case (sx):  [prog, [timer ticks], [[iteration, front?]...], K, fuel]
      (time compression of the busy loop in which __deliver_cancellation re-arms itself every turn).
 Output: [[events], outcome, task.cancelling()]; events [0,id,t] start, [1,id,t] done, [2,id,t,cancel_called,
   cancelled_caught,cancelling,swallowed-or-TimeoutError-raised,exc-class-given-to-__exit__], [3,id,t,exc] caught,
-  [4,t] the controller's task.cancel() returned True.
+  [4,t,n,sh] the controller's task.cancel() returned True while n active scopes already had cancel_called (sh: the
+  program was inside ignore_cancellation / a shielded yield),
+  [5,id,t] the program called cancel() on the scope opened by statement id.
 """
 from __future__ import annotations
 
@@ -171,7 +173,8 @@ class _Loop(detloop.DetLoop):
         if self.target.cancel():
             t = self.time() / TICK
             assert t == int(t), t
-            self.env.events.append([4, int(t)])
+            self.env.events.append([4, int(t), sum(1 for sc in self.env.scopes if sc.cancel_called()),
+                                    self.env.shielded > 0])
 
     def _run_once(self):
         self.iterno += 1
@@ -199,7 +202,8 @@ def _code(exc):
 class _Env:
     def __init__(self, loop, backend):
         self.loop, self.backend = loop, backend
-        self.scopes, self.events = [], []
+        self.scopes, self.scope_ids, self.events = [], [], []
+        self.shielded = 0      # the program is inside ignore_cancellation / cancel_shielded_coro_yield
         self.task = None
 
     def now(self):
@@ -226,7 +230,11 @@ async def _ex(n, env):
         env.events.append([1, n[1], env.now()])
     elif op == 4:
         env.events.append([0, n[1], env.now()])
-        await be.cancel_shielded_coro_yield()
+        env.shielded += 1
+        try:
+            await be.cancel_shielded_coro_yield()
+        finally:
+            env.shielded -= 1
         env.events.append([1, n[1], env.now()])
     elif op == 5:
         env.loop._vtime += n[1] * TICK
@@ -243,6 +251,7 @@ async def _ex(n, env):
             scope.cancel()
         cm.__enter__()
         env.scopes.append(scope)
+        env.scope_ids.append(nid)
         env.events.append([0, nid, env.now()])
         exc = None
         try:
@@ -250,6 +259,7 @@ async def _ex(n, env):
         except BaseException as e:  # the with-statement protocol, spelled out to observe __exit__'s return value
             exc = e
         env.scopes.pop()
+        env.scope_ids.pop()
         code = _code(exc)
         args = (None, None, None) if exc is None else (type(exc), exc, exc.__traceback__)
         try:
@@ -266,11 +276,16 @@ async def _ex(n, env):
             raise exc
     elif op == 7:
         env.events.append([0, n[1], env.now()])
-        await be.ignore_cancellation(_ex(n[2], env))
+        env.shielded += 1
+        try:
+            await be.ignore_cancellation(_ex(n[2], env))
+        finally:
+            env.shielded -= 1
         env.events.append([1, n[1], env.now()])
     elif op == 8:
         if n[1] < len(env.scopes):
             env.scopes[-1 - n[1]].cancel()
+            env.events.append([5, env.scope_ids[-1 - n[1]], env.now()])
     elif op == 9:
         if n[1] < len(env.scopes):
             env.scopes[-1 - n[1]].reschedule(env.loop.time() + n[2][0] * TICK if n[2] else math.inf)
@@ -379,22 +394,22 @@ def features(p, acc=None, depth=0, shield=False):
     return acc
 
 
-def gen_prog(rng, ids, budget, depth, nscopes, full):
+def gen_prog(rng, ids, budget, depth, nscopes, full, maxdepth=3):
     """Random statement list with at most `budget` nodes."""
     stmts = []
     while budget[0] > 0 and (not stmts or rng.random() < 0.62):
         budget[0] -= 1
         r = rng.random()
-        if depth < 3 and r < 0.30:
+        if depth < maxdepth and r < 0.30:
             kind = int(rng.random() < 0.4)
             pre = int(full and rng.random() < 0.07)
             delay = [] if rng.random() < 0.12 else [rng.choice([0, 1, 1, 2, 2, 3, 4])]
-            body = gen_prog(rng, ids, budget, depth + 1, nscopes + 1, full)
+            body = gen_prog(rng, ids, budget, depth + 1, nscopes + 1, full, maxdepth)
             stmts.append([6, ids(), kind, pre, delay, body])
-        elif depth < 3 and full and r < 0.40:
-            stmts.append([7, ids(), gen_prog(rng, ids, budget, depth + 1, nscopes, full)])
-        elif depth < 3 and full and r < 0.47:
-            stmts.append([10, ids(), rng.choice([0, 0, 1, 2]), gen_prog(rng, ids, budget, depth + 1, nscopes, full)])
+        elif depth < maxdepth and full and r < 0.40:
+            stmts.append([7, ids(), gen_prog(rng, ids, budget, depth + 1, nscopes, full, maxdepth)])
+        elif depth < maxdepth and full and r < 0.47:
+            stmts.append([10, ids(), rng.choice([0, 0, 1, 2]), gen_prog(rng, ids, budget, depth + 1, nscopes, full, maxdepth)])
         elif r < 0.75:
             stmts.append([2, ids(), rng.choice([0, 1, 1, 2, 2, 3, 4])])
         elif r < 0.80:
@@ -453,6 +468,45 @@ def family(full):
     return out
 
 
+def family3(rng, thorough):
+    """Three-deep stacks: outer(kind, deadline a | none){ middle(never cancelled){ inner(kind, deadline b | none){
+    ignore_cancellation( [inner.cancel()] sleep c [outer.cancel()] [sleep c2 [outer.cancel()]] ) } ; sleep 2 } ; sleep 1 };
+    coro_yield -- a cancelled outer scope must be re-armed through the uncancelled middle one; shielded sections with one
+    or two blocking steps; explicit cancels and deadlines falling inside the shielded section."""
+    out = []
+    for ko in (0, 1):
+        for ki in (0, 1):
+            for a in ([], [1], [2], [3]):
+                for b in ([], [1], [2]):
+                    for c in (1, 2):
+                        for ci in (0, 1):
+                            for co in (0, 1, 2):
+                                for two in (0, 1):
+                                    if co == 2 and not two:
+                                        continue
+                                    if not a and not co:
+                                        continue        # outer never cancelled
+                                    if not b and not ci:
+                                        continue        # inner never cancelled
+                                    if not thorough and rng.random() > 0.3:
+                                        continue
+                                    ids = _Ids()
+                                    so, sm, si, sh = ids(), ids(), ids(), ids()
+                                    body = [[8, 0]] if ci else []
+                                    body.append([2, ids(), c])
+                                    if co == 1:
+                                        body.append([8, 2])
+                                    if two:
+                                        body.append([2, ids(), 1])
+                                        if co == 2:
+                                            body.append([8, 2])
+                                    inner = [6, si, ki, 0, b, [7, sh, seq(*body)]]
+                                    middle = [6, sm, 0, 0, [], seq(inner, [2, ids(), 2])]
+                                    p = seq([6, so, ko, 0, a, seq(middle, [2, ids(), 1])], [3, ids()])
+                                    out.append((p, "family3" + ("-two-steps" if two else "")))
+    return out
+
+
 def wrap(p, ids):
     """try: p except BaseException: pass; two checkpoints (exposes a cancellation still pending after the program)"""
     return seq([10, ids(), 2, p], [3, ids()], [3, ids()])
@@ -503,11 +557,18 @@ def cases(tier, rng, escalate):
         for inp, stag, out in schedules(p, K, rng, exhaustive, 5):
             out = out if out is not None else run_impl(inp)
             yield dict(input=inp, tags=tags_of(p, inp, stag, src), nontrivial=nontrivial_of(inp, out))
+    for p, src in family3(rng, thorough):
+        K = rng.choice([1, 2, 3, 4])
+        for inp, stag, out in schedules(p, K, rng, False, 4):
+            out = out if out is not None else run_impl(inp)
+            yield dict(input=inp, tags=tags_of(p, inp, stag, src), nontrivial=nontrivial_of(inp, out))
     nrand = 5000 if thorough else 900
     for i in range(nrand):
         ids = _Ids()
         simple = i % 4 == 0
-        p = gen_prog(rng, ids, [rng.choice([3, 4, 5, 6, 7, 8])], 0, 0, not simple)
+        deep = i % 5 == 1
+        p = gen_prog(rng, ids, [rng.choice([6, 8, 10]) if deep else rng.choice([3, 4, 5, 6, 7, 8])], 0, 0, not simple,
+                     4 if deep else 3)
         if rng.random() < 0.5:
             p = wrap(p, ids)
         K = rng.choice([1, 2, 3, 4])
@@ -551,6 +612,20 @@ def _has(p, ops):
     return False
 
 
+def _has_catch_cancel(p):
+    if p[0] == 10 and p[2] in (0, 2):
+        return True
+    if p[0] == 1:
+        return _has_catch_cancel(p[1]) or _has_catch_cancel(p[2])
+    if p[0] == 6:
+        return _has_catch_cancel(p[5])
+    if p[0] == 7:
+        return _has_catch_cancel(p[2])
+    if p[0] == 10:
+        return _has_catch_cancel(p[3])
+    return False
+
+
 def oracle(inp):
     prog, timers, turns = inp[0], inp[1], inp[2]
     evs, outcome, cnt = run_impl(inp)
@@ -589,17 +664,45 @@ def oracle(inp):
     # (programs without try/except: nothing may swallow the CancelledError but a scope that was itself cancelled)
     if not _has(prog, (10,)):
         seen_ext = False
+        fresh = False      # some accepted cancel arrived outside every shield while NO active scope had cancel_called yet
         for e in evs:
             if e[0] == 4:
                 seen_ext = True
+                fresh = fresh or (e[2] == 0 and not e[3])
             elif seen_ext and e[0] == 1 and nodes[e[1]][0][0] in (2, 3) and not any(q[0] == 7 for q in nodes[e[1]][1]):
                 swallowed = [x[1] for x in evs if x[0] == 2 and x[6]]
                 kind = "lost-external-cancel" if swallowed else "lost-cancel"
+                if fresh:
+                    # not the history of the known findings (a cancel racing with / overwritten by the cancel of a scope
+                    # that was ALREADY cancelled): nothing may claim a cancellation that arrived first
+                    kind += "-no-scope-was-cancelled"
                 return (f"{kind}: statement {e[1]} completed at tick {e[2]} after the controller's task.cancel() had "
                         f"been accepted (scopes that swallowed / raised TimeoutError: {swallowed})")
+    # once the program called cancel() on a scope, no blocking statement inside it and outside every shield that STARTS
+    # afterwards completes
+    # (the unchanged code itself lets a cancelled scope fall silent when, while a foreign cancellation postponed by a
+    #  shield is pending, the program's own try/except swallows that foreign CancelledError: such programs are skipped)
+    swallow_in_window = _has(prog, (4, 7)) and _has_catch_cancel(prog)
+    cancelled_at = {}
+    started_after = set()
+    for e in ([] if swallow_in_window else evs):
+        if e[0] == 5:
+            cancelled_at.setdefault(e[1], True)
+        elif e[0] == 0 and e[1] in nodes and nodes[e[1]][0][0] in (2, 3):
+            encl = [q[1] for q in nodes[e[1]][1] if q[0] == 6]
+            if any(c in cancelled_at for c in encl) and not any(q[0] == 7 for q in nodes[e[1]][1]):
+                started_after.add(e[1])
+            else:
+                started_after.discard(e[1])
+        elif e[0] == 1 and e[1] in started_after:
+            which = [c for c in (q[1] for q in nodes[e[1]][1] if q[0] == 6) if c in cancelled_at]
+            return (f"late-completion-after-cancel: statement {e[1]} started and completed (tick {e[2]}) inside scope(s) "
+                    f"{which} after the program had called cancel() on them")
+        elif e[0] == 2:
+            cancelled_at.pop(e[1], None)
     # a sleep that started when an enclosing (not shield-separated) scope's deadline had been reached, or that was
     # still running strictly after it, must not complete (programs without reschedule)
-    if not _has(prog, (9,)):
+    if not _has(prog, (9,)) and not swallow_in_window:
         enter = {}
         start = {}
         for e in evs:
